@@ -277,3 +277,158 @@ func (l *Linear) PosAt(off int) parse.Pos {
 	_, p := l.guardsAt(off)
 	return p
 }
+
+// ---- boolean reading of guard stacks (small-model evaluation) ----
+
+// Cond is a parsed template condition: and/or/not over opaque atoms.
+type Cond struct {
+	Op   string // "and", "or", "not", "atom", "true"
+	Atom string
+	Args []*Cond
+}
+
+// ParseCond reads a pipeline such as `and .A (not .B) (or .C (eq .D "x"))`. Anything that is
+// not and/or/not becomes an opaque atom named by its text.
+func ParseCond(pipe string) *Cond {
+	toks := tokenizeCond(pipe)
+	c, _ := parseCondList(toks, 0, len(toks))
+	return c
+}
+
+func tokenizeCond(s string) []string {
+	var toks []string
+	i := 0
+	for i < len(s) {
+		switch {
+		case s[i] == ' ' || s[i] == '\t' || s[i] == '\n':
+			i++
+		case s[i] == '(' || s[i] == ')':
+			toks = append(toks, string(s[i]))
+			i++
+		case s[i] == '"' || s[i] == '`':
+			q := s[i]
+			j := i + 1
+			for j < len(s) && s[j] != q {
+				if s[j] == '\\' && q == '"' {
+					j++
+				}
+				j++
+			}
+			if j < len(s) {
+				j++
+			}
+			toks = append(toks, s[i:j])
+			i = j
+		default:
+			j := i
+			for j < len(s) && s[j] != ' ' && s[j] != '(' && s[j] != ')' && s[j] != '\t' && s[j] != '\n' {
+				j++
+			}
+			toks = append(toks, s[i:j])
+			i = j
+		}
+	}
+	return toks
+}
+
+// parseCondList parses toks[lo:hi] as one expression (head + args or a single term).
+func parseCondList(toks []string, lo, hi int) (*Cond, int) {
+	// split into top-level terms
+	var terms [][2]int
+	for i := lo; i < hi; {
+		if toks[i] == "(" {
+			d, j := 1, i+1
+			for j < hi && d > 0 {
+				if toks[j] == "(" {
+					d++
+				} else if toks[j] == ")" {
+					d--
+				}
+				j++
+			}
+			terms = append(terms, [2]int{i, j})
+			i = j
+		} else {
+			terms = append(terms, [2]int{i, i + 1})
+			i++
+		}
+	}
+	if len(terms) == 0 {
+		return &Cond{Op: "true"}, hi
+	}
+	sub := func(t [2]int) *Cond {
+		if toks[t[0]] == "(" {
+			c, _ := parseCondList(toks, t[0]+1, t[1]-1)
+			return c
+		}
+		return &Cond{Op: "atom", Atom: toks[t[0]]}
+	}
+	head := toks[terms[0][0]]
+	if len(terms) > 1 && (head == "and" || head == "or" || head == "not") {
+		c := &Cond{Op: head}
+		for _, t := range terms[1:] {
+			c.Args = append(c.Args, sub(t))
+		}
+		return c, hi
+	}
+	if len(terms) == 1 {
+		return sub(terms[0]), hi
+	}
+	// a function call (eq .A "x", stringContains …): opaque
+	return &Cond{Op: "atom", Atom: strings.Join(toks[lo:hi], " ")}, hi
+}
+
+// Atoms collects the atom names.
+func (c *Cond) Atoms(out map[string]bool) {
+	if c == nil {
+		return
+	}
+	if c.Op == "atom" {
+		out[c.Atom] = true
+	}
+	for _, a := range c.Args {
+		a.Atoms(out)
+	}
+}
+
+// Eval evaluates under env (missing atoms are false).
+func (c *Cond) Eval(env map[string]bool) bool {
+	switch c.Op {
+	case "true":
+		return true
+	case "atom":
+		return env[c.Atom]
+	case "not":
+		return len(c.Args) == 1 && !c.Args[0].Eval(env)
+	case "and":
+		for _, a := range c.Args {
+			if !a.Eval(env) {
+				return false
+			}
+		}
+		return true
+	case "or":
+		for _, a := range c.Args {
+			if a.Eval(env) {
+				return true
+			}
+		}
+		return false
+	}
+	return false
+}
+
+// StackCond is the conjunction a guard stack stands for: `if`/`with` contribute their
+// condition, `else` its negation, `range` nothing.
+func StackCond(gs []Guard) *Cond {
+	c := &Cond{Op: "and"}
+	for _, g := range gs {
+		switch g.Kind {
+		case "if":
+			c.Args = append(c.Args, ParseCond(g.Pipe))
+		case "else":
+			c.Args = append(c.Args, &Cond{Op: "not", Args: []*Cond{ParseCond(g.Pipe)}})
+		}
+	}
+	return c
+}
